@@ -164,12 +164,37 @@ def run_instance(task):
                         bad = 'different requirement sequence'
                     elif json.loads(json.dumps(got.get('observations'))) != json.loads(json.dumps(expect_obs)):
                         bad = 'different observations'
-                    if bad:
+                    if bad and (got.get('failures') or (got.get('exception') and not str(got.get('exception')).startswith('control:'))):
+                        # the untouched library fails the harness requirements on concrete inputs: a violation candidate
+                        # (confirmed by the parent through a fresh replay), whatever the symbolic pass concluded
+                        lab = ('witness: ' + str(got['failures'][0])) if got.get('failures') else 'witness exception:' + str(got.get('exception'))
+                        res['violations'].append(dict(label=lab, inputs={k: hex(x) for k, x in inputs.items()}, known=None,
+                                                      detail=str(got.get('detail') or '')[:300]))
+                    elif bad:
                         res['mismatches'].append(dict(why=bad, inputs={k: hex(x) for k, x in inputs.items()},
                                                       trace=got.get('trace')))
                     if res['witness_sample'] is None:
                         res['witness_sample'] = dict(inputs={k: hex(x) for k, x in list(inputs.items())[:6]},
                                                      observations=expect_obs[:4])
+            # a path the engine could not finish symbolically (unmodelled operation, solver unknown): under-approximate
+            # bug finding - run the untouched library concretely on a model of the path condition reached so far
+            if status in ('inconclusive', 'exception') and res.get('probe_budget', 3) > 0:
+                res['probe_budget'] = res.get('probe_budget', 3) - 1
+                try:
+                    model = _interesting_model(eng, rnd)
+                except (C.SxControl, z3_exc()):
+                    model = None
+                if model is not None:
+                    try:
+                        inputs = ctx._inputs(model)
+                    except Exception:
+                        inputs = None
+                    if inputs is not None:
+                        got = concrete_run(hname, params, inputs)
+                        if got.get('failures') or (got.get('exception') and not str(got.get('exception')).startswith('control:')):
+                            lab = ('probe: ' + str(got['failures'][0])) if got.get('failures') else 'probe exception:' + str(got.get('exception'))
+                            res['violations'].append(dict(label=lab, inputs={k: hex(x) for k, x in inputs.items()}, known=None,
+                                                          detail=str(got.get('detail') or '')[:300]))
             prefix = eng.next_prefix()
     except _Alarm:
         res['inconclusive'].append('instance time limit')
